@@ -296,7 +296,8 @@ func (t *c15TreeGen) genDir(prefix string, depth int) {
 	if prefix == "" {
 		used[".sourcegraph"] = true // generated separately
 	}
-	n := g.Int(0, 5, "nentries")
+	// rapid favours small draws: small indexes map to mid-sized directories
+	n := []int{3, 2, 4, 1, 6, 0, 5, 8}[g.Int(0, 7, "nentries")]
 	if prefix == "" && n == 0 {
 		n = g.Int(0, 2, "nentries-root")
 	}
